@@ -62,7 +62,8 @@ def one(ctx, name, cfg, kind, data, seq, do_model=True):
         p = loaders.scratch() / "c05-collapse.js"
         tc.filename = str(p)
     run = strat.run_real(name, cfg, tc, lambda k, c: seq[k % len(seq)], max_tests=3000)
-    if do_model and name in strat.MODELLED and kind in ("line", "char", "symbol") and not cfg.get("move"):
+    endless = bool(run.error) and ("test-limit" in run.error or "hang" in run.error)   # the move "can introduce reducing loops"
+    if do_model and name in strat.MODELLED and kind in ("line", "char", "symbol") and not (cfg.get("move") and endless):
         ctx.expect(name, strat.model_line(name, cfg, f, run.verdicts, kind=kind), run.encode(), case)
     else:
         ctx.evaluations += 1
